@@ -508,3 +508,32 @@ Proof.
   intros Hnd Hrk H. destruct (eucl_check alts profile vpos apos) eqn:E; [|reflexivity].
   exfalso. apply (eucl_refuted_sound alts profile Hnd Hrk H). eapply planted_sound; eassumption.
 Qed.
+
+(* ============================================================================================== *)
+(* 8. relabeling (for C15): the specification only depends on the labels through the placement     *)
+(* ============================================================================================== *)
+Lemma vote_realised_relabel (f : N -> N) x v r :
+  vote_realised x v (map f r) -> vote_realised (fun a => x (f a)) v r.
+Proof.
+  intros H i j a b Hij Hi Hj. unfold closer. apply (H i j (f a) (f b) Hij).
+  - rewrite nth_error_map, Hi. reflexivity.
+  - rewrite nth_error_map, Hj. reflexivity.
+Qed.
+
+Theorem Euclidean_relabel (f : N -> N) profile : Euclidean (map (map f) profile) -> Euclidean profile.
+Proof.
+  intros (x & vpos & H). exists (fun a => x (f a)), vpos. unfold realises in *.
+  remember (map (map f) profile) as q eqn:Eq. revert profile Eq.
+  induction H as [|v r' vs q' Hv Hq IH]; intros profile Eq.
+  - destruct profile; [constructor|discriminate].
+  - destruct profile as [|r t]; [discriminate|]. cbn in Eq. injection Eq as -> ->.
+    constructor; [now apply vote_realised_relabel|now apply IH].
+Qed.
+
+Corollary Euclidean_relabel_iff (f g : N -> N) profile :
+  (forall a, g (f a) = a) -> (Euclidean (map (map f) profile) <-> Euclidean profile).
+Proof.
+  intros Hgf. split; [apply Euclidean_relabel|]. intros H. apply (Euclidean_relabel g).
+  rewrite map_map. rewrite (map_ext _ (fun r => r)); [now rewrite map_id|].
+  intros r. rewrite map_map. rewrite (map_ext _ (fun a => a)); [apply map_id|assumption].
+Qed.
